@@ -9,7 +9,7 @@ META = {
              '(record length class, size class, outcome); non-trivial when a record body is < 12 bytes, the record '
              'length is < 32 or >= 16382, a name has >= 128 characters, or a body exceeds 3 capacities'),
     'required_obs': {'quick': ['body-lt-12', 'mx-20..30', 'mx-32', 'mx-16384', 'name-255', 'body-gt-3cap',
-                               'write-ok', 'odd-body']},
+                               'write-ok', 'odd-body', 'row-ge-64KiB', 'row-ge-1MiB']},
     'exhaustive_windows': {
         'quick': ['every even record length 20..256 and a stride sample above, with a fixed small specification'],
         'thorough': ['every even record length 20..16384 (8183 values) with a fixed small specification',
@@ -52,6 +52,13 @@ def cases(tier, seed):
     # writer level: bodies around multiples of capacity, incl. many capacities
     for mx in ([32, 36, 64, 128, 8192] if tier == 'quick' else [32, 34, 36, 38, 40, 48, 64, 100, 128, 256, 8192, 16384]):
         yield {'stratum': 'writer-big', 'index': i, 'kind': 'writer', 'mx': mx}
+        i += 1
+    # very wide rows (a row of 64 KiB .. several MiB), default input chunk size: one record of many capacities per row
+    wide = [65535, 65536, 2 ** 20 - 9, 2 ** 20 - 1, 2 ** 20, 2 ** 20 + 1, 1200001] if tier == 'quick' else \
+        [65535, 65536, 2 ** 19 + 1, 2 ** 20 - 9, 2 ** 20 - 2, 2 ** 20 - 1, 2 ** 20, 2 ** 20 + 1, 1200001, 2 ** 21 - 1, 2 ** 21, 2 ** 21 + 1,
+         2 ** 22 + 3, 2 ** 23 + 1, 2 ** 24 + 5]
+    for wb in wide:
+        yield {'stratum': 'huge-row', 'index': i, 'kind': 'huge', 'width': wb, 'mx': 16384 if (wb % 2 or wb > 2 ** 22) else 8192}
         i += 1
     for k in range(60 if tier == 'quick' else 1500):
         yield {'stratum': 'random', 'index': k, 'kind': 'random'}
@@ -162,6 +169,16 @@ def run_case(case):
             if nl >= 128:
                 bump('name-ge-128')
             judge(run, f'name:{which}:{nl}', f'{which} name of {nl} characters')
+    elif k == 'huge':
+        mx, wb = case['mx'], case['width']
+        for dtype, width in (('|u1', wb), ('<f4', max(2, wb // 4))):
+            sp = small_spec(mx, rows=2, dtype=dtype, width=width, chname='WIDE')
+            sp['write']['output_chunk_size'] = 2 ** 20
+            run = harness.execute(sp, want_taps=False)
+            bump('row-ge-64KiB')
+            if width * (1 if dtype == '|u1' else 4) >= 2 ** 20:
+                bump('row-ge-1MiB')
+            judge(run, f'huge:{mx}:{dtype}:{wb}', f'frame rows of {width} x {dtype} ({wb} bytes), record length {mx}, default input chunk size')
     elif k == 'writer':
         mx = case['mx']
         cap = mx - 8
